@@ -208,7 +208,13 @@ func (t *SymbolTable) Resolve(name string) (*Resolution, bool) {
 				// Local variable
 				return &Resolution{symbol: sym, scope: Local}, true
 			}
-			// Free variable
+			// Free variable. The enclosing function may know it already:
+			// the cache that is consulted above is this table's own, which
+			// for a reference made from a nested block is not where free
+			// variables are recorded.
+			if rs, ok := activeFunc.freeByName[name]; ok && rs.symbol == sym {
+				return rs, true
+			}
 			depth := t.FunctionDepth() - ancestor.FunctionDepth()
 			freeIndex := len(activeFunc.free)
 			rs := &Resolution{symbol: sym, scope: Free, depth: depth, freeIndex: freeIndex}
